@@ -85,9 +85,14 @@ def strategy(tier):
         "t": st.just("cms"),
         "conf": st.one_of(st.floats(0.0, 1.0, exclude_min=True, exclude_max=True).filter(lambda c: c <= 1 - 1e-9),
                           st.floats(0, 9).map(lambda u: 1 - 10 ** -u), st.floats(0, 30).map(lambda u: 10 ** -u),
-                          st.integers(1, 30).map(lambda d: 1 - 2.0 ** -d)),
+                          st.integers(1, 30).map(lambda d: 1 - 2.0 ** -d),
+                          # just above / below a 1 - 2^-k boundary: one row more is needed for the slightest excess
+                          st.tuples(st.integers(1, 30), st.sampled_from([1e-15, 1e-13, 3e-12, 1e-11, 1e-10, 1e-9, -1e-11, -1e-13]),
+                                    ).map(lambda t: min(1 - 1e-9, (1 - 2.0 ** -t[0]) * (1 + t[1])))),
         "err": st.one_of(st.floats(1e-4, 1.0, exclude_max=True), st.floats(0, 4).map(lambda u: 10 ** -u).filter(lambda e: e < 1),
-                         st.integers(3, 20000).map(lambda w: 2 / w)),
+                         st.integers(3, 20000).map(lambda w: 2 / w),
+                         st.tuples(st.integers(3, 20000), st.sampled_from([1e-15, 1e-13, 3e-12, 1e-11, 1e-10, -1e-11, -1e-13])
+                                   ).map(lambda t: (2 / t[0]) * (1 - t[1]))),
     })
     cuckoo = st.fixed_dictionaries({"t": st.just("cuckoo"), "b": st.integers(1, 8),
                                     "u": st.floats(0.0, 9.6), "pow2": st.booleans(),
